@@ -239,3 +239,127 @@ def run(ctx):
             r5.ok(f"{ci.name}.Get_K_C_M_F: assemble when dirty, then mark clean")
         else:
             r5.fail(f.qualname, "flag", f.file, f.lineno, f"{ci.name}.Get_K_C_M_F", "does not (assemble when the flag is set, then clear it)")
+    staggered_flags_rule(ctx, simu)
+
+
+def staggered_flags_rule(ctx, simu):
+    """R14.6: a simulation that memoises one assembled system per problem type behind its own flag (staggered
+    multi-field solve): every statement that replaces the solution field of problem X (a solve or a restore)
+    is followed, on every completing path, by lowering the flag of every other problem's memo."""
+    from ..flow import Locals, must_pass
+
+    repo = ctx.repo
+    r = ctx.rule("R14.6", "per-problem memo flags (multi-field simulations): after the solution field of one problem is replaced (solve / _Set_solutions), every path lowers the memo flag of each other problem before leaving", min_instances=3)
+
+    def self_attr(n):
+        return n.attr if isinstance(n, ast.Attribute) and isinstance(n.value, ast.Name) and n.value.id == "self" else None
+
+    def last_attr(e):
+        return e.attr if isinstance(e, ast.Attribute) else (e.id if isinstance(e, ast.Name) else None)
+
+    for ci in repo.subclasses(simu):
+        g = ci.methods.get("Get_K_C_M_F")
+        if g is None or g.cls is not ci:
+            continue
+        flags = {}  # problem -> flag attribute
+        for n in ast.walk(g.node):
+            if isinstance(n, ast.If) and isinstance(n.test, ast.UnaryOp) and isinstance(n.test.op, ast.Not) and self_attr(n.test.operand):
+                flag = self_attr(n.test.operand)
+                asm = [c for st in n.body for c in ast.walk(st) if isinstance(c, ast.Call) and self_attr(c.func) == "Assembly" and c.args]
+                sets = [st for st in n.body if isinstance(st, ast.Assign) and self_attr(st.targets[0]) == flag and isinstance(st.value, ast.Constant) and st.value.value is True]
+                if asm and sets:
+                    flags[last_attr(Locals(g.node).resolve(asm[0].args[0]))] = flag
+        if len(flags) < 2:
+            continue
+        SETTERS = ("_Set_solutions", "_Solver_Solve_problemType", "_Solver_Solve")
+        own = {f.node.name: f for nm, f in ci.methods.items() if f.cls is ci}
+
+        def lowers(st, flag):
+            if isinstance(st, ast.Assign) and any(self_attr(t) == flag for t in st.targets) and isinstance(st.value, ast.Constant) and st.value.value is False:
+                return True
+            if isinstance(st, ast.Expr) and isinstance(st.value, ast.Call) and self_attr(st.value.func) == "Need_Update":
+                vals = list(st.value.args) + [k.value for k in st.value.keywords]
+                return all(isinstance(v, ast.Constant) and v.value is True for v in vals)
+            return False
+
+        def continuation_ok(stmt_path, flag):
+            """stmt_path: (block, index) pairs from the function body down to the block holding the event statement"""
+            for block, idx in reversed(stmt_path):
+                if must_pass(block[idx + 1:], lambda s: lowers(s, flag)):
+                    return True
+                if any(isinstance(s, ast.Return) for s in block[idx + 1:]):
+                    return False
+            return False
+
+        def find_paths(block, pred, path=()):
+            for i, st in enumerate(block):
+                here = path + ((block, i),)
+                if pred(st):
+                    yield st, here
+                if isinstance(st, (ast.FunctionDef, ast.ClassDef)):
+                    continue
+                for fld in ("body", "orelse", "finalbody"):
+                    sub = getattr(st, fld, None)
+                    if isinstance(sub, list) and sub and isinstance(sub[0], ast.stmt):
+                        yield from find_paths(sub, pred, here)
+                for h in getattr(st, "handlers", []) or []:
+                    yield from find_paths(h.body, pred, here)
+
+        def callee_name(n):
+            a = self_attr(n.func) if isinstance(n, ast.Call) else None
+            if a is None:
+                return None
+            m2 = repo.lookup_method(ci, a)
+            return m2.node.name if m2 is not None and m2.cls is ci else a
+
+        # pending[m]: (replaced problem, other problem) pairs m leaves to its caller (fixpoint over in-class calls)
+        pending = {nm: set() for nm in own}
+        reports = {}
+        for _ in range(4):
+            changed_any = False
+            for nm, f in sorted(own.items()):
+                if nm in ("Get_K_C_M_F", "Need_Update", "__init__"):
+                    continue
+                loc = Locals(f.node)
+
+                def changed(st, nm=nm, loc=loc):
+                    if isinstance(st, (ast.If, ast.For, ast.While, ast.With, ast.Try, ast.FunctionDef, ast.ClassDef)):
+                        return set()
+                    out = set()
+                    for n in ast.walk(st):
+                        if isinstance(n, ast.Call) and self_attr(n.func):
+                            a = callee_name(n)
+                            if a in SETTERS and n.args:
+                                p = last_attr(loc.resolve(n.args[0]))
+                                out |= {(p, q) for q in flags if q != p} if p in flags else set()
+                            elif a in pending and a != nm:
+                                out |= pending[a]
+                    return out
+
+                left = set()
+                rep = []
+                for st, path in find_paths(f.node.body, lambda s: bool(changed(s))):
+                    for p, q in sorted(changed(st)):
+                        ok = continuation_ok(list(path), flags[q])
+                        rep.append((st, p, q, ok))
+                        if not ok:
+                            left.add((p, q))
+                reports[nm] = rep
+                if left != pending[nm]:
+                    pending[nm] = left
+                    changed_any = True
+            if not changed_any:
+                break
+        for nm, rep in sorted(reports.items()):
+            f = own[nm]
+            has_caller = any(callee_name(n) == nm for m2, f2 in own.items() if m2 != nm for n in ast.walk(f2.node) if isinstance(n, ast.Call))
+            for st, p, q, ok in rep:
+                r.instance(fn=f.qualname)
+                flag = flags[q]
+                if ok:
+                    r.ok(f"{ci.name}.{nm}: `{norm_text(st)[:60]}` replaces the {p} field, then lowers self.{flag.split('__')[-1]}")
+                elif nm.startswith("_") and has_caller:
+                    r.ok(f"{ci.name}.{nm}: private helper, obligation ({p} replaced -> lower the {q} memo flag) checked at its in-class call sites")
+                else:
+                    r.fail(f.qualname, f"stale:{q}-after-{p}", f.file, st.lineno, f"{ci.name}.{nm}",
+                           f"`{norm_text(st)[:80]}` replaces the {p} field but a path leaves {nm} without lowering self.{flag.split('__')[-1]}: the memoised {q} system (assembled from the old {p} field) is served by Get_K_C_M_F")
